@@ -1,6 +1,8 @@
 /-
   C10 — one template object, its open renders, and every API operation as a transition.
 
+  (the template object is template 0 of its loader; run-time includes reach the others)
+
     access     `template.stream`            (`_prepare_self` on first use)
     open d     `template.generate(**d)`     (accesses `.stream`, creates the Context; lazy)
     step i     `next()` on the i-th open output stream
@@ -15,29 +17,54 @@ import Genshi.Model.HeapStep
 namespace Genshi.Heap
 open Genshi
 
-structure World where
-  heap : Heap              -- the lists reachable from `_stream` once it is prepared (cell 0 = `_stream`)
-  image : Heap             -- what `_prepare` builds from the parsed stream (a function of the source)
+/-- `_stream` / `_prepared` of one template object of the loader; `root` = address of its prepared
+    `_stream` list -/
+structure TState where
+  root : Nat
   streamPrepared : Bool    -- `_stream` already holds the prepared list
   prepared : Bool          -- `_prepared`
-  translator : Bool        -- `filters[0]` is a Translator (set up before any operation)
+  deriving DecidableEq, Repr, Inhabited
+
+/-- The template object (index 0), the other templates its loader serves (included at run time),
+    and the open renders.  `heap` holds the prepared lists of ALL templates from the start: `_prepare`
+    is a function of the source, what it will build is fixed; the flags say whether the object
+    already holds it.  (Which cells exist before preparation is not observable: every reader goes
+    through `.stream`.) -/
+structure World where
+  heap : Heap
+  tmpls : List TState
+  translator : Bool        -- `filters[0]` is a Translator (set up by the loader callback / before any operation)
   renders : List Render
   registered : Nat         -- loader cache entries that refer to the object
   deriving Repr, Inhabited
 
-def World.init (image : Heap) (translator : Bool) : World :=
-  { heap := [], image := image, streamPrepared := false, prepared := false,
+def World.init (image : Heap) (roots : List Nat) (translator : Bool) : World :=
+  { heap := image, tmpls := roots.map fun r => ⟨r, false, false⟩,
     translator := translator, renders := [], registered := 0 }
 
-/-- `Template.stream` executed without interruption; `false` = `_prepare` met an already prepared
-    stream (TypeError) — unreachable without the race -/
-def World.access (w : World) : World × Bool :=
-  if w.prepared then (w, true)
-  else if w.streamPrepared then (w, false)
-  else ({ w with heap := w.image, streamPrepared := true, prepared := true }, true)
+def World.roots (w : World) : List Nat := w.tmpls.map (·.root)
 
-/-- what a render reads: the prepared stream the object has, or will build on first use -/
-def World.view (w : World) : Heap := if w.prepared then w.heap else w.image
+/-- `Template.stream` of template `t` executed without interruption; `false` = `_prepare` met an already
+    prepared stream (TypeError) — unreachable without the race -/
+def accessT (ts : List TState) (t : Nat) : List TState × Bool :=
+  match ts[t]? with
+  | none => (ts, true)
+  | some x =>
+    if x.prepared then (ts, true)
+    else if x.streamPrepared then (ts, false)
+    else (ts.set t { x with streamPrepared := true, prepared := true }, true)
+
+def World.access (w : World) : World × Bool :=
+  let (ts, ok) := accessT w.tmpls 0
+  ({ w with tmpls := ts }, ok)
+
+/-- the templates a `next()` loaded and rendered are prepared afterwards -/
+def markPrepared (ts : List TState) : List Nat → List TState
+  | [] => ts
+  | t :: rest => markPrepared (accessT ts t).1 rest
+
+/-- `_prepared` of the template object itself -/
+def World.prepared (w : World) : Bool := match w.tmpls[0]? with | some x => x.prepared | none => true
 
 /-! ## `Translator.extract` -/
 
@@ -131,22 +158,25 @@ def exec (v : Variant) (fuel : Nat) (w : World) : Act → World × Obs
     (w1, if ok then .unit else .raised .typeError)
   | .open d =>
     let (w1, ok) := w.access
-    if ok then ({ w1 with renders := w1.renders ++ [Render.new w1.translator d] }, .opened w1.renders.length)
+    if ok then
+      ({ w1 with renders := w1.renders ++ [Render.new w1.translator (w1.roots.headD 0) d] },
+       .opened w1.renders.length)
     else (w1, .raised .typeError)
   | .step i =>
     match w.renders[i]? with
     | none => (w, .out i .stopped)
     | some r =>
-      let (h1, r1, o) := stepR v fuel w.heap r
-      ({ w with heap := h1, renders := w.renders.set i r1 }, .out i o)
+      let s := stepR v w.translator w.roots fuel w.heap r
+      ({ w with heap := s.h, renders := w.renders.set i s.r, tmpls := markPrepared w.tmpls s.touched },
+       .out i s.out)
   | .extract =>
     let (w1, ok) := w.access
     if ok then
-      match readEvs w1.heap [] (.tmpl 0) with
+      match readEvs w1.heap [] (.tmpl (w1.roots.headD 0)) with
       | none => (w1, .extracted [] (some .unmodelled))
       | some root =>
         let r := extractEvs v fuel w1.heap root
-        ({ w1 with heap := r.h }, .extracted (0 :: r.trace) r.err)
+        ({ w1 with heap := r.h }, .extracted (w1.roots.headD 0 :: r.trace) r.err)
     else (w1, .raised .typeError)
   | .pickle => (w, .unit)             -- `__getstate__` copies `__dict__`; the pickler only reads
   | .register => ({ w with registered := w.registered + 1 }, .unit)
@@ -170,15 +200,16 @@ def outputsOf (i : Nat) : List Obs → List StepOut
   | _ :: rest => outputsOf i rest
 
 /-- `n` times `next()` on one render with nothing else going on -/
-def soloSteps (v : Variant) (fuel : Nat) (h : Heap) : Nat → Render → List StepOut
+def soloSteps (v : Variant) (translator : Bool) (roots : List Nat) (fuel : Nat) (h : Heap) :
+    Nat → Render → List StepOut
   | 0, _ => []
   | n + 1, r =>
-    let (_, r1, o) := stepR v fuel h r
-    o :: soloSteps v fuel h n r1
+    let s := stepR v translator roots fuel h r
+    s.out :: soloSteps v translator roots fuel h n s.r
 
 /-- render alone: a fresh `generate(**d)` on the object in state `w`, `n` times `next()` -/
 def solo (v : Variant) (fuel : Nat) (w : World) (d : Frame) (n : Nat) : List StepOut :=
-  soloSteps v fuel w.view n (Render.new w.translator d)
+  soloSteps v w.translator w.roots fuel w.heap n (Render.new w.translator (w.roots.headD 0) d)
 
 def countSteps (i : Nat) : List Act → Nat
   | [] => 0
